@@ -1,6 +1,7 @@
 use std::collections::{HashMap, HashSet};
 
 use crate::go::goast as ast;
+use crate::go::goty;
 
 // Public entry: eliminate unused local variables from Go AST while
 // preserving side-effecting expressions (primarily calls).
@@ -640,11 +641,19 @@ fn expr_has_side_effects(e: &ast::Expr) -> bool {
         }
         ast::Expr::FieldAccess { obj, .. } => expr_has_side_effects(obj),
         ast::Expr::Index { array, index, .. } => {
-            expr_has_side_effects(array) || expr_has_side_effects(index)
+            // Indexing fails at run time when the index is out of range; only an array
+            // indexed by a constant is checked by the Go compiler instead.
+            let checked_statically = matches!(array.get_ty(), goty::GoType::TArray { .. })
+                && matches!(index.as_ref(), ast::Expr::Int { .. });
+            !checked_statically || expr_has_side_effects(array) || expr_has_side_effects(index)
         }
         ast::Expr::UnaryOp { expr, .. } => expr_has_side_effects(expr),
-        ast::Expr::BinaryOp { lhs, rhs, .. } => {
-            expr_has_side_effects(lhs) || expr_has_side_effects(rhs)
+        ast::Expr::BinaryOp { op, lhs, rhs, .. } => {
+            // Integer division fails at run time when the divisor is zero.
+            let may_fail = matches!(op, ast::GoBinaryOp::Div)
+                && is_integer_type(lhs.get_ty())
+                && !is_nonzero_int_literal(rhs);
+            may_fail || expr_has_side_effects(lhs) || expr_has_side_effects(rhs)
         }
         ast::Expr::Cast { expr, .. } => expr_has_side_effects(expr),
         ast::Expr::StructLiteral { fields, .. } => {
@@ -659,6 +668,27 @@ fn expr_has_side_effects(e: &ast::Expr) -> bool {
         | ast::Expr::Int { .. }
         | ast::Expr::Float { .. }
         | ast::Expr::String { .. } => false,
+    }
+}
+
+fn is_integer_type(ty: &goty::GoType) -> bool {
+    matches!(
+        ty,
+        goty::GoType::TInt8
+            | goty::GoType::TInt16
+            | goty::GoType::TInt32
+            | goty::GoType::TInt64
+            | goty::GoType::TUint8
+            | goty::GoType::TUint16
+            | goty::GoType::TUint32
+            | goty::GoType::TUint64
+    )
+}
+
+fn is_nonzero_int_literal(e: &ast::Expr) -> bool {
+    match e {
+        ast::Expr::Int { value, .. } => value.trim_start_matches('-').chars().any(|c| c != '0'),
+        _ => false,
     }
 }
 
